@@ -67,6 +67,9 @@ def build(prop_files, thorough=False):
         info['translate'] = out.strip().split('\n')[-1] if out.strip() else ''
         info['translate_ok'] = (rc == 0)
         translate_failed = (rc != 0)
+        rcf, outf = sh('python3 tools/translate_fns.py %s/ansi_string coq/Gen' % SRC)
+        info['translate_fns'] = outf.strip().split('\n')[-1] if outf.strip() else ''
+        translate_fns_failed = (rcf != 0)
         # the translator itself is cross-checked against the imported module (exhaustive, tables are finite)
         rct, outt = sh('PYTHONPATH=%s /venv/bin/python -m harness.tablecheck' % SRC)
         info['tablecheck'] = [l for l in outt.strip().split('\n') if l.startswith('TABLECHECK')][:8]
@@ -96,9 +99,11 @@ def build(prop_files, thorough=False):
             cone = deps_of(pf)
             info['cone'] = sorted(set(info['cone']) | set(cone))
             # only what lies in this property's dependency cone can break it
-            if translate_failed and any(c.startswith('Gen/') for c in cone):
+            if translate_failed and any(c.startswith('Gen/') and c != 'Gen/Fns.v' for c in cone):
                 info['errors'].append('translator: ' + info['translate'])
-            if tablecheck_failed and any(c.startswith('Gen/') for c in cone):
+            if translate_fns_failed and 'Gen/Fns.v' in cone:
+                info['errors'].append('function translator: ' + info['translate_fns'])
+            if tablecheck_failed and any(c.startswith('Gen/') and c != 'Gen/Fns.v' for c in cone):
                 info['errors'].append('generated tables differ from the imported module: ' + '; '.join(info['tablecheck'])[:600])
             for f, msg in make_errors:
                 (info['errors'] if f in cone else info['errors_outside_cone']).append(msg)
